@@ -232,14 +232,15 @@ def generate(tier, rng):
     for k, (src, f) in enumerate(files):
         nbits = len(f) * 8
         if not quick:
-            positions = range(nbits)
+            # every bit of the six smallest files, 2500 sampled bits (plus header/trailer ends) of the others
+            positions = range(nbits) if k < 6 else sorted(set(rng.sample(range(nbits), min(nbits, 2500)) + list(range(0, 64)) + list(range(nbits - 64, nbits))))
         else:
             positions = sorted(set(rng.sample(range(nbits), 100) + list(range(0, 16)) + list(range(nbits - 34, nbits))))
         for pos in positions:
             g = bytearray(f); g[pos // 8] ^= 1 << (pos % 8)
             yield case(sx(["burst", q(f.hex()), q(bytes(g).hex())]), bytes(g).hex(), dict(stream="bitflip"))
     # bursts up to 32 bits
-    nb = 80 if quick else 3000
+    nb = 80 if quick else 600
     for k, (src, f) in enumerate(files):
         nbits = len(f) * 8
         hsz = HSZ
